@@ -129,3 +129,9 @@ def load(R):
     R.contract(D + "direct_memento_fn_dependencies", prop="C14", types={"self": DG}, returns=TSet(TObj()),
                ensures=["forall(int, lambda i: implies(0 <= i and i < len(self._all_rules) and IS_DIRECT_RULE(self, self._all_rules[i]), self._all_rules[i].memento_fn in result))",
                         "forall(obj, lambda f: implies(f in result, exists(int, lambda i: 0 <= i and i < len(self._all_rules) and IS_DIRECT_RULE(self, self._all_rules[i]) and same(self._all_rules[i].memento_fn, f))))"])
+
+    # ---- the graph links nodes by the parts of a rule key: parse_key is the inverse of the key construction "kind;namespace;name" proved under C03
+    # (the kind and the namespace contain no ';'; the name may)
+    R.contract(D + "parse_key", prop="C14", types={"key": TStr}, returns=TTuple([TStr, TStr, TStr]), ghost_params={"kind": TStr, "ns": TStr, "nm": TStr},
+               requires=["key == ghost('kind') + ';' + ghost('ns') + ';' + ghost('nm')", "';' not in ghost('kind')", "';' not in ghost('ns')"],
+               ensures=["result[0] == ghost('kind')", "result[1] == ghost('ns')", "result[2] == ghost('nm')"])
